@@ -195,14 +195,9 @@ def handle (j : Json) : Json :=
   let targetIsRef (n : CNode) : Bool := match stepOf n with
     | .node _ home src ptr _ _ => b.nodes.any (fun m => m.cx == home && m.src == src && m.ptr == ptr && m.kind == n.kind && m.ref.isSome && !m.copy)
     | _ => false
-  let degenerate := refNodes.any (fun n =>
-    let t := n.ref.getD ""
-    t.endsWith "#" ||
-    (match res with
-     | .ok s => (match findObj b.nodes n.cx n.src n.ptr n.kind false with
-        | some i => (s.get i).isNone && targetIsRef n
-        | none => false)
-     | _ => false))
+  -- #34: `unvisitRef` with a nil value (a pure `$ref` cycle) or a swallowed `errMUST…` (the fragment `#`) — the
+  -- events that, with `nskip`, make up the hypothesis `Clean` of the completeness theorem
+  let degenerate := outcome == "ok" && (nnil > 0 || nempty > 0)
   let specStepKey (n : CNode) : String :=
     match stepSpec fs rootData (if n.src = "" then none else some n.src) (n.ref.getD "") with
     | some (file, toks, v) =>
